@@ -39,6 +39,19 @@ func VRuleDigest(r Rule) string {
 
 func vContentDigest(sb *strings.Builder, c *ExchangeContent) {
 	sb.WriteString("<")
+	// C04: objects / arrays carry children and no scalar value, everything else a scalar value and no children
+	switch c.TokenType {
+	case "object", "array":
+		if c.ScalarValue != "" {
+			sb.WriteString("ILL-TYPED:container-with-scalar-value ")
+		}
+	case "":
+		sb.WriteString("ILL-TYPED:node-without-token-type ")
+	default:
+		if len(c.Children) != 0 {
+			sb.WriteString("ILL-TYPED:scalar-with-children ")
+		}
+	}
 	if c.Key != nil {
 		sb.WriteString(strconv.Quote(*c.Key) + " ")
 	}
@@ -132,4 +145,33 @@ func VUsedNames(s ExchangeSchema) (types, enums []string, err error) {
 		enums = e.exchangeUsedUserEnums.Data()
 	}
 	return types, enums, nil
+}
+
+// VSchemaEmit renders everything MarshalJSON of a schema hands to encoding/json,
+// the example included (computed the way MarshalJSON computes it).
+func VSchemaEmit(s ExchangeSchema) string {
+	d := VSchemaDigest(s)
+	switch e := s.(type) {
+	case *ExchangeJSightSchema:
+		if e != nil && !e.disableExchangeExample {
+			ex, err := e.Example()
+			if err != nil {
+				return d + " example-error:" + err.Error()
+			}
+			return d + " example=" + strconv.Quote(string(ex))
+		}
+	case *ExchangeRegexSchema:
+		ex, err := e.Example()
+		if err != nil {
+			return d + " example-error:" + err.Error()
+		}
+		return d + " example=" + strconv.Quote(string(ex))
+	case ExchangeRegexSchema:
+		ex, err := e.Example()
+		if err != nil {
+			return d + " example-error:" + err.Error()
+		}
+		return d + " example=" + strconv.Quote(string(ex))
+	}
+	return d
 }
